@@ -171,6 +171,7 @@ class FactDB:
         for r in self.records:
             r["n_full"] = r["n"]
             r["n"] = strip_targs(r["n"])
+        self._canonical_storage_name()
         self.fn_by_id = {f["id"]: f for f in self.functions}
         self.fn_by_name = {}
         for f in self.functions:
@@ -179,6 +180,72 @@ class FactDB:
         self.rec_by_name = {}
         for r in self.records:
             self.rec_by_name.setdefault(r["n"], []).append(r)
+
+    STORAGE = "data"
+    # Members the rules refer to by name, identified by the ROLE their type gives them inside their class: the spelling of a private
+    # member is not part of any property, so a renamed member is presented under its canonical name (resolved by declaration id).
+    # (record, "field"|"svar", predicate on the canonical type spelling, canonical name); a role matched by several members is left alone.
+    ROLES = [
+        ("rlbox::rlbox_sandbox", "field", lambda c: c.startswith("std::atomic<") and "Sandbox_Status" in c, "sandbox_created"),
+        ("rlbox::rlbox_sandbox", "field", lambda c: c == "std::mutex", "callback_lock"),
+        ("rlbox::rlbox_sandbox", "field", lambda c: c == "std::vector<void *>", "callback_keys"),
+        ("rlbox::rlbox_sandbox", "svar", lambda c: c == "std::vector<void *>", "sandbox_list"),
+        ("rlbox::rlbox_sandbox", "svar", lambda c: c == "std::shared_timed_mutex", "sandbox_list_lock"),
+        ("rlbox::rlbox_sandbox", "field", lambda c: c == "std::shared_timed_mutex", "func_ptr_cache_lock"),
+        ("rlbox::rlbox_sandbox", "field", lambda c: c.startswith("rlbox::app_pointer_map<"), "app_ptr_map"),
+        ("rlbox::app_pointer_map", "field", lambda c: c.startswith("std::map<"), "pointer_map"),
+        ("rlbox::rlbox_noop_sandbox_thread_data", "field", lambda c: c.endswith("*"), "sandbox"),
+        ("rlbox::rlbox_noop_sandbox_thread_data", "field", lambda c: not c.endswith("*"), "last_callback_invoked"),
+        ("rlbox::rlbox_dylib_sandbox_thread_data", "field", lambda c: c.endswith("*"), "sandbox"),
+        ("rlbox::rlbox_dylib_sandbox_thread_data", "field", lambda c: not c.endswith("*"), "last_callback_invoked"),
+    ]
+
+    def _canonical_storage_name(self):
+        """The rules refer to the wrappers' single storage member as `data` (and to a few bookkeeping members by name, see ROLES).
+        When the source calls one of them something else, every declaration, member expression, reference and member initialiser
+        that resolves (by declaration id) to that member is presented under the canonical name."""
+        wrappers = ("rlbox::tainted", "rlbox::tainted_volatile", "rlbox::tainted_opaque")
+        ren = {}  # decl id -> (old, new)
+        names = set()
+        for r in self.records:
+            if r["n"] in wrappers and len(r.get("fields") or []) == 1 and not r.get("explicit_spec"):
+                fl = r["fields"][0]
+                if "d" in fl:
+                    names.add(fl["n"])
+                    if fl["n"] != self.STORAGE:
+                        ren[fl["d"]] = (fl["n"], self.STORAGE)
+            for rec, kind, pred, canon in self.ROLES:
+                if r["n"] != rec:
+                    continue
+                members = r.get("fields") if kind == "field" else r.get("svars")
+                cands = [m for m in (members or []) if "d" in m and pred(((m.get("t") or {}).get("c") or ""))]
+                if len(cands) == 1 and cands[0]["n"] != canon and not any(m["n"] == canon for m in (r.get("fields") or []) + (r.get("svars") or [])):
+                    ren[cands[0]["d"]] = (cands[0]["n"], canon)
+        self.storage_names = sorted(names)
+        self.renamed_members = sorted({"%s->%s" % v for v in ren.values()})
+        if not ren:
+            return
+
+        def fix(x, key, old, new_):
+            v = x.get(key)
+            if isinstance(v, str):
+                if v == old:
+                    x[key] = new_
+                elif v.endswith("::" + old):
+                    x[key] = v[:-len(old)] + new_
+
+        stack = [self.functions, self.records, self.statics]
+        while stack:
+            x = stack.pop()
+            if isinstance(x, dict):
+                d_ = x.get("d")
+                if d_ in ren and isinstance(d_, int):
+                    old, new_ = ren[d_]
+                    for key in ("n", "qn", "sn"):
+                        fix(x, key, old, new_)
+                stack.extend(v for v in x.values() if isinstance(v, (dict, list)))
+            elif isinstance(x, list):
+                stack.extend(v for v in x if isinstance(v, (dict, list)))
 
     def _resolve_types(self, d):
         types = self.types
